@@ -31,6 +31,8 @@ def run_queries(mod, cfg, out, stats, cosim_cycles=0, extra_observe=lambda h: []
         v = decide(make, h, q.name, q.k, q.build, stats, init=q.init, max_prefix=q.max_prefix,
                    twin=q.twin, sample={"cfg": cfg})
         if v is not None:
+            from .bmc import mark_violation
+            mark_violation(f"{q.name}@{cfg_key(cfg)}")
             out.violations.append({
                 "key": f"{q.name}@{cfg_key(cfg)}",
                 "what": f"{mod.PROPERTY} {q.name} violated for configuration {cfg_key(cfg)} "
